@@ -16,6 +16,7 @@ func main() {
 	vlib.Main("C10",
 		vlib.Group{Name: "domain", Gen: genDomain},
 		vlib.Group{Name: "dst", Gen: genDst},
+		vlib.Group{Name: "repr", Gen: genRepr},
 		vlib.Group{Name: "cca", Gen: genCCA},
 		vlib.Group{Name: "mahalanobis", Gen: genMahalanobis},
 		vlib.Group{Name: "spatial", Gen: genSpatial},
